@@ -265,6 +265,21 @@ func cmdConfig(f hx.Flags, r *hx.Result) {
 		case "propmissing":
 			_ = s.Set(key, "${noSuchProperty}", 0)
 			return nil, true, false
+		case "propsubtree":
+			// the referenced name exists only as the prefix of other keys
+			_ = s.Set(key, "${subTree}", 0)
+			_ = s.Set("subTree.leaf", good, 0)
+			_ = s.Set("subTree.other.x", "1", 0)
+			return nil, true, false
+		case "propspecial":
+			sp := []string{"[]", "{}", "<nil>"}[rng.Intn(3)]
+			_ = s.Set(key, "${spProp}", 0)
+			_ = s.Set("spProp", sp, 0)
+			if a.typedLit {
+				return nil, true, false
+			}
+			_, sv, _ := cfLiteralOf(a.goType, sp)
+			return sv, false, false
 		default: // propill
 			if !a.typedLit {
 				return nil, false, true
